@@ -109,6 +109,13 @@ def plan(tier):
                       'file', 'own', MFS, 2))
         units.append(([[look], [POP, ('add', 'c', BIG2, None, None)]],
                       'bfile', 'own', MFS, 2))
+    # a suspended iteration (one key taken) followed by ordinary lookups on
+    # the same client, against completed writes of another client
+    for w, look in ((('set', 'a', 9, None, None), ('get', 'a', 0)),
+                    (('delete', 'a'), ('contains', 'a')),
+                    (('add', 'c', 1, None, None), ('get', 'c', 0)),
+                    (('set', 'a', BIG, None, None), ('len',))):
+        units.append(([[('iternext',), look], [w]], 'two', 'own', MFS, 2))
     # a handle being opened while another client writes (constructor runs
     # ~70 statements against the shared directory)
     for w in (SET_FILE, ('set', 'c', 1, None, None), POP, DELETE, INCR):
